@@ -58,13 +58,15 @@ pub struct RemoteLink<P> {
     link_rx: LinkRx,
     notifications: VecDeque<Notification>,
     pub(crate) will_delay_interval: u32,
+    /// CONNACK for the registered connection, written first thing in `start`
+    connack: Option<Packet>,
 }
 
 impl<P: Protocol> RemoteLink<P> {
     pub async fn new(
         router_tx: Sender<(ConnectionId, Event)>,
         tenant_id: Option<String>,
-        mut network: Network<P>,
+        network: Network<P>,
         connect_packet: Packet,
         dynamic_filters: bool,
         assigned_client_id: Option<String>,
@@ -105,12 +107,16 @@ impl<P: Protocol> RemoteLink<P> {
         let id = link_rx.id();
         Span::current().record("connection_id", id);
 
+        // The connection is registered with the router from here on. The CONNACK is written by
+        // `start`, so that a peer that is already gone is handled like any other broken link
+        // (the router is told, the will logic runs) instead of leaving the registration behind.
+        let mut connack = None;
         if let Some(mut packet) = notification.into() {
             if let Packet::ConnAck(_ack, props) = &mut packet {
                 let mut new_props = props.clone().unwrap_or_default();
                 new_props.assigned_client_identifier = assigned_client_id;
                 *props = Some(new_props);
-                network.write(packet).await?;
+                connack = Some(packet);
             }
         }
 
@@ -122,11 +128,16 @@ impl<P: Protocol> RemoteLink<P> {
             link_rx,
             notifications: VecDeque::with_capacity(100),
             will_delay_interval,
+            connack,
         })
     }
 
     pub async fn start(&mut self) -> Result<(), Error> {
         self.network.set_keepalive(self.connect.keep_alive);
+
+        if let Some(connack) = self.connack.take() {
+            self.network.write(connack).await?;
+        }
 
         // Note:
         // Shouldn't result in bounded queue deadlocks because of blocking n/w send
